@@ -33,7 +33,7 @@ func genReuseCase(t *rapid.T) reuseCase {
 	return c
 }
 
-var reusePart = pbt.Part[reuseCase]{Name: "generator-reuse", Quick: 3000, Thorough: 50000, Gen: genReuseCase, Check: checkReuseCase}
+var reusePart = pbt.Part[reuseCase]{Name: "generator-reuse", Quick: 3000, Thorough: 30000, Gen: genReuseCase, Check: checkReuseCase}
 
 func generateWith(g *introspection.Generator, schema *graphql.Schema) (jobj, error) {
 	var data introspection.Data
